@@ -11,7 +11,14 @@
    `ords stamp` is the order in which the sync actualizer serving a command flushes the np sync
    projectors (a Go map order): any function listing exactly the projectors 0..np-1 (`ords_ok`).
    All theorems hold for every trust level (also values the code does not know), every number of
-   sync projectors, every flush order, every history and every fault plan. *)
+   sync projectors, every flush order, every history and every fault plan.
+
+   Modelling assumption, part of every statement below: a sync projector is a function of the
+   event alone - it writes the row (ws, WLogOffset) -> stamp of its view blindly (`w_proj1`), so
+   running it again for the same event changes nothing. The real processor invokes the sync
+   projectors of an event again whenever the event is re-applied (after any failure of the fork, and
+   for the last event after every restart): at-least-once. A read-modify-write projector (a
+   counter) would count such an event twice; that is outside the model and outside the claim. *)
 From Coq Require Import List NArith Bool Lia.
 From V Require Import Gen.Params C01_Command.Model C01_Command.MapLemmas C01_Command.Ideal C01_Command.Proofs C01_Command.Oracle.
 Import ListNotations.
@@ -104,6 +111,44 @@ Theorem log_is_the_written_commands :
 Proof.
   exact (fun tl np ords steps st outs =>
     log_is_the_written_commands_proved (code_conf tl) ords np steps st outs flush_stops_at_first_error).
+Qed.
+
+(* 2a. Per command: it is in the log - and then, by theorems 1 and 2, completely in every store -
+   exactly when its PLog write took effect, whatever it was answered. *)
+Theorem command_in_log_iff_written :
+  forall tl np ords steps st outs,
+  ords_ok np ords ->
+  run (code_conf tl) ords 1 steps state0 = (st, outs) ->
+  forall t c o, In (t, c, o) (stamped 1 steps outs) ->
+  (o_written o = true -> exists e, In e (events st) /\ e_tag e = t /\ event_matches c e = true /\ reply_fits o e)
+  /\ (o_written o = false -> forall e, In e (events st) -> e_tag e <> t).
+Proof.
+  exact (fun tl np ords steps st outs =>
+    command_in_log_iff_written_proved (code_conf tl) ords np steps st outs flush_stops_at_first_error).
+Qed.
+
+(* 2b. "A command answered with an error because the partition-log write failed is in none of
+   them" - full statement, for every fault kind at the PLog write:
+
+     forall ... (t, c, o) in stamped ..., the plan of c faults its PLog write -> o_reply o = RServer ->
+       forall e in events st, e_tag e <> t.
+
+   REFUTED for the kind "error after effect" (known finding C01-F2): the row is stored, the call
+   reports an error, the command is answered 5xx - and the next recovery completes it. It holds
+   for the kinds without effect: that is the second half of 2a (o_written = false). *)
+Theorem plog_error_means_absent_refuted :
+  exists tl ords steps st outs t c o,
+  run (code_conf tl) ords 1 steps state0 = (st, outs)
+  /\ steps = [SCmd c [(TPLog, 1, FAfter)]; SCmd (mkCmd 2 false [Ins 1 1]) []]
+  /\ In (t, c, o) (stamped 1 steps outs) /\ o_reply o = RServer
+  /\ mem st <> None
+  /\ exists e, In e (events st) /\ e_tag e = t /\ get2 (wlog (sto st)) (e_ws e) (e_woff e) = Some e.
+Proof.
+  exists 0, (fun _ => [0]), [SCmd (mkCmd 1 false [Ins 1 5]) [(TPLog, 1, FAfter)]; SCmd (mkCmd 2 false [Ins 1 1]) []].
+  eexists. eexists. exists 1, (mkCmd 1 false [Ins 1 5]). eexists.
+  split; [vm_compute; reflexivity|]. split; [reflexivity|]. split; [left; reflexivity|].
+  split; [reflexivity|]. split; [discriminate|].
+  eexists. split; [left; reflexivity|]. split; reflexivity.
 Qed.
 
 (* 2'. Every update / deactivation row in the log addresses a record created by an earlier event
@@ -227,6 +272,13 @@ Example recovery_nonvacuous :
   /\ map fst (plog s') = [1; 2; 3].
 Proof. vm_compute. repeat split. discriminate. Qed.
 
+Example in_log_iff_written_nonvacuous :
+  let '(st, outs) := run (code_conf 0) ex_ords 1 ex_steps state0 in
+  map (fun x => (fst (fst x), o_written (snd x))) (stamped 1 ex_steps outs)
+    = [(1, true); (2, true); (3, false); (4, false); (5, true)]
+  /\ map e_tag (events st) = [1; 2; 5].
+Proof. vm_compute. split; reflexivity. Qed.
+
 Example answered_nonvacuous :
   let steps := [SCmd (mkCmd 1 false [Ins 1 5]) [(TPLog, 1, FAfter)]; SCmd (mkCmd 1 false [Ins 1 6]) []] in
   map o_reply (snd (run (code_conf 0) ex_ords 1 steps state0)) = [RServer; ROk 2 [200002]]
@@ -282,6 +334,8 @@ Print Assumptions recovery_restores_consistency.
 Print Assumptions serving_state_consistent.
 Print Assumptions consistency_refuted_without_early_return.
 Print Assumptions log_is_the_written_commands.
+Print Assumptions command_in_log_iff_written.
+Print Assumptions plog_error_means_absent_refuted.
 Print Assumptions log_rows_well_formed.
 Print Assumptions every_command_answered.
 Print Assumptions every_command_answered_refuted.
